@@ -52,7 +52,7 @@ OpOf(e) ==
       [] e.ev = "Advance" -> [op |-> "Advance", d |-> e.d]
       [] OTHER -> [op |-> e.ev]
 
-ProjRes(res) == [i \in DOMAIN res |-> [k |-> res[i].k, v |-> res[i].v, w |-> res[i].w,
+ProjRes(res) == [i \in DOMAIN res |-> [k |-> res[i].k, v |-> res[i].v, w |-> res[i].w, tw |-> res[i].tw,
                                        la |-> res[i].la, lm |-> res[i].lm]]
 ProjSnap(sn) == [res |-> ProjRes(sn.res), ao |-> sn.ao, wo |-> sn.wo, ec |-> sn.ec, ws |-> sn.ws,
                  fq |-> sn.fq, on |-> sn.sk.on, aged |-> sn.sk.aged]
@@ -65,7 +65,7 @@ ULayerOps == {"Insert", "Get", "Contains", "Invalidate", "InvalidateAll", "Inval
               "Iter", "Advance"}
 SLayerOps == {"Insert", "Get", "Contains", "Invalidate", "InvalidateAll", "Iter", "Advance", "Sync"}
 
-SProjRes(res) == [i \in DOMAIN res |-> [k |-> res[i].k, v |-> res[i].v, w |-> res[i].w,
+SProjRes(res) == [i \in DOMAIN res |-> [k |-> res[i].k, v |-> res[i].v, w |-> res[i].w, tw |-> res[i].tw,
                                         la |-> res[i].la, lm |-> res[i].lm,
                                         adm |-> res[i].adm, dirty |-> res[i].dirty]]
 SProjSnap(sn) == [res |-> SProjRes(sn.res), ao |-> sn.ao, wo |-> sn.wo, ec |-> sn.ec, ws |-> sn.ws,
@@ -102,7 +102,10 @@ Next ==
                        /\ ~r.s.panic
              \* the concurrent cache
              canStepS == li = "son" /\ e.ev \in SLayerOps
-             rs == S!SDo(ss, OpOf(e))
+             \* an iterator's owner that called invalidate_all() after the clock step (xa)
+             rs == IF e.ev = "Advance" /\ "xa" \in DOMAIN e
+                   THEN [S!SDo(S!SDo(ss, OpOf(e)).s, [op |-> "InvalidateAll"]) EXCEPT !.ev = S!SDo(ss, OpOf(e)).ev]
+                   ELSE S!SDo(ss, OpOf(e))
              agreesS == canStepS /\ SameResult(rs.ev, e) /\ SProjSnap(S!SSnap(rs.s)) = SProjSnap(e.snap)
                         /\ rs.s.crash = ""
              drifted == \/ li = "on" /\ ((canStep /\ ~agrees) \/ e.ev \in {"Panic", "Crash"})
